@@ -162,6 +162,17 @@ func TestProp(t *testing.T) {
 			}
 		}
 	}
+	// a replay that comes after thousands of other requests of the same client inside the window (volumes beyond that: C02)
+	for ei, et := range ref.ETypes {
+		for _, n := range []int{1500, 5000} {
+			c := Base(et, r.Seed()*7907+uint64(ei*2+n), "HTTP/svc.example.com")
+			c.Apply("replay")
+			c.ReplayAfter = n
+			count(r, c)
+			r.Violation("enum", c, Eval(c))
+		}
+	}
+	r.Rule("enum (replay after volume): for every etype an accepted AP-REQ, then 1500 / 5000 further valid AP-REQs of the same client at other client times, then the first one again: refused with KRB_AP_ERR_REPEAT")
 	r.Rule("enum (PAC grid): every etype x PAC {good, bad server signature, five unparseable shapes} x position of its AD-IF-RELEVANT container among the ticket's authorization data {behind an empty container, behind a KERB-AD-RESTRICTION-ENTRY container, behind both, in front of another} x PAC decoding on / off")
 	r.Rule(fmt.Sprintf("enum: every etype x {valid, every single defect} x all %d settings combinations (quick: a seeded 1/3 slice) + defect pairs (thorough: every ordered pair under default and one rotating setting; quick: a seeded 1/40 slice)", len(settings)))
 	evid.Parallel(len(jobs), 16, func(i int) {
